@@ -586,6 +586,31 @@ func genC05(r *Rng, tier string) []Case {
 					read(c.build())
 				}
 			}
+			// :status spellings the reader must refuse (only three ASCII digits are a status)
+			for _, st := range []string{"+200", "0200", "0000000301", "-200", "20", "2000", " 200", "200 ", "2e2", "٢٠٠", "", "099", "100", "999"} {
+				c := clone()
+				c.items[0] = respItem(st, [][2]string{{"content-type", "text/plain"}}, []byte("x"))
+				c.entries[0].locs[0][1] = uint64(len(c.items[0]))
+				off := c.entries[0].locs[0][0] + uint64(len(c.items[0]))
+				for k := 1; k < len(c.entries); k++ {
+					c.entries[k].locs[0][0] = off
+					off += c.entries[k].locs[0][1]
+				}
+				read(c.build())
+			}
+			// a signatures section whose authority map has no "cert" entry (or only ocsp / sct)
+			for _, auth := range [][]byte{{0xa0}, append([]byte{0xa1}, append(cborText("ocsp"), cborBytes([]byte("o"))...)...),
+				append([]byte{0xa1}, append(cborText("sct"), cborBytes([]byte("s"))...)...)} {
+				sec := []byte{0x82, 0x81}
+				sec = append(sec, auth...)
+				sec = append(sec, 0x81, 0xa3)
+				sec = append(sec, append(cborText("authority"), 0x00)...)
+				sec = append(sec, append(cborText("sig"), cborBytes([]byte{1, 2, 3})...)...)
+				sec = append(sec, append(cborText("signed"), cborBytes([]byte{0xa0})...)...)
+				c := clone()
+				c.extra = []bbSection{{name: "signatures", body: sec}}
+				read(c.build())
+			}
 			// two index entries at the same offset: the same length (legitimate sharing) and
 			// different lengths (each entry must be checked with its own length)
 			for ei := range base.entries {
